@@ -33,6 +33,7 @@ from abc import ABC, abstractmethod
 from collections.abc import Iterable, Mapping, Set
 from typing import Any, Self
 
+from .._exceptions import InvalidQueryError
 from ..dimensions import DataId, DimensionGroup
 from .convert_args import convert_order_by_args, convert_where_args
 from .driver import QueryDriver
@@ -228,6 +229,8 @@ class QueryResultsBase(QueryBase):
         replace the old ones.  Slicing always occurs after sorting, even if
         `limit` is called before `order_by`.
         """
+        if limit is not None and limit < 0:
+            raise InvalidQueryError(f"Query limit must not be negative (got {limit}).")
         return self._copy(self._tree, limit=limit)
 
     def where(
